@@ -298,7 +298,7 @@ func (sc *scenario) run() (toks []string, timedOut bool) {
 }
 
 func runTaskloop(c *Ctx) error {
-	c.Rule = "one case = one scenario (1..8 submitters, thorough 1..14; contexts: background / cancelled concurrently / cancelled before the call / the loop itself; 0..4 racing closers with or without preStop, plus a final Close at quiescence; perturbation level 0..3 inside task bodies, preStop, onClose and before calls), everything derived from the scenario seed. Non-trivial = the race materialised: at least one Run returned an error (ErrClosed or context) in the observed log. Distinct = distinct scenario seeds among those. api cases: one public Agent method called while a harness task occupies the loop of a live agent (17 methods)."
+	c.Rule = "one case = one scenario (1..8 submitters, thorough 1..14; contexts: background / cancelled concurrently / cancelled before the call / the loop itself; 0..4 racing closers with or without preStop, plus a final Close at quiescence; perturbation level 0..3 inside task bodies, preStop, onClose and before calls), everything derived from the scenario seed. Non-trivial = the race materialised: at least one Run returned an error (ErrClosed or context) in the observed log. Distinct = distinct scenario seeds among those. api cases: one public Agent method called while a harness task occupies the loop of a live agent (17 methods). api2 cases: a pair of public methods (start family, Restart, SetRemoteCredentials, AddRemoteCandidate, getters, Close/GracefulClose; 47 pairs) called from two goroutines on a fresh agent, overlapping for certain (first call parked on the occupied loop, then the second, then release) and with the loop free."
 	emit := func(seed int64) {
 		sc := genScenario(seed, c.Tier)
 		toks, to := sc.run()
@@ -364,6 +364,14 @@ func runTaskloop(c *Ctx) error {
 	if c.Replay != "" {
 		// a log depends on the schedule: re-run every recorded scenario many times
 		for _, t := range c.ReplayLines() {
+			if len(t) == 4 && t[0] == "api2" {
+				for k := 0; k < 5; k++ {
+					if err := api2Case(c, t[1], t[2], t[3]); err != nil {
+						return err
+					}
+				}
+				continue
+			}
 			if len(t) == 2 && t[0] == "api" {
 				if err := runAPI(c, Unhex(t[1]), 3); err != nil {
 					return err
@@ -394,6 +402,10 @@ func runTaskloop(c *Ctx) error {
 	if err := runAPI(c, "", rounds); err != nil {
 		// the live-agent environment could not be set up or driven: reported as a
 		// correspondence difference (the model side answers OK), never as a verdict by itself
+		c.Count("api:environment-failure")
+		c.Emit("apienv", []string{"apienv"}, []string{"ENVFAIL", Hex(err.Error())}, false)
+	}
+	if err := runAPI2(c, rounds); err != nil {
 		c.Count("api:environment-failure")
 		c.Emit("apienv", []string{"apienv"}, []string{"ENVFAIL", Hex(err.Error())}, false)
 	}
